@@ -5,11 +5,13 @@ import (
 	"context"
 	"errors"
 	"github.com/aperturerobotics/bifrost/crypto"
+	"github.com/aperturerobotics/bifrost/link"
 	"io"
 	"os"
 	"sync"
 	"sync/atomic"
 	"time"
+	"verifharness/internal/fakes"
 
 	"github.com/aperturerobotics/bifrost/hash"
 	"github.com/aperturerobotics/bifrost/peer"
@@ -42,7 +44,18 @@ func identFromCtx(ctx context.Context) (peer.ID, error) {
 }
 
 func newServer() *signaling_rpc_server.Server {
-	return signaling_rpc_server.NewServerWithIdentify(quietLog, identFromCtx)
+	// the default identification: the authenticated peer of the mounted stream carried by the call's context
+	return signaling_rpc_server.NewServer(quietLog)
+}
+
+// identCtx is the context of a call arriving over an authenticated stream of identity who (who < 0: a context
+// without any mounted stream, i.e. an unauthenticated caller).
+func identCtx(who int) context.Context {
+	if who < 0 {
+		return context.Background()
+	}
+	ctx := context.WithValue(context.Background(), identKey{}, gen.PeerID(who))
+	return link.WithMountedStreamContext(ctx, &fakes.MountedStream{Peer: gen.PeerID(who), Proto: "verif/signaling"})
 }
 
 // clock is a global event counter ordering everything the harness observes.
@@ -82,7 +95,7 @@ type srvSession struct {
 }
 
 func newSrvSession(who, dst int) *srvSession {
-	ctx, cancel := context.WithCancel(context.WithValue(context.Background(), identKey{}, gen.PeerID(who)))
+	ctx, cancel := context.WithCancel(identCtx(who))
 	return &srvSession{ctx: ctx, cancel: cancel, who: who, dst: dst, in: make(chan *signaling.SessionRequest, 64), done: make(chan struct{}), blocked: make(chan struct{}, 64)}
 }
 
@@ -256,7 +269,7 @@ type srvListen struct {
 }
 
 func newSrvListen(who int) *srvListen {
-	ctx, cancel := context.WithCancel(context.WithValue(context.Background(), identKey{}, gen.PeerID(who)))
+	ctx, cancel := context.WithCancel(identCtx(who))
 	return &srvListen{ctx: ctx, cancel: cancel, who: who, done: make(chan struct{})}
 }
 
@@ -335,6 +348,10 @@ func (s *srvListen) stop() bool {
 // kind: honest, other-signer (signed by another key but claiming `claim`), tampered-body,
 // tampered-sig, unsigned, other-context, empty-body
 func mkMsg(kind string, claim, other int, data []byte, seqno uint64) *signaling.SessionMsg {
+	if kind == "honest-large" || kind == "tampered-tail-large" {
+		// an SDP-sized and larger payload: many hash blocks / buffers
+		data = append(append([]byte{}, data...), gen.DetBytes("large-"+string(data), 16385+int(seqno%5)*9001)...)
+	}
 	m, err := signaling.NewSessionMsg(gen.Key(claim), hash.HashType_HashType_BLAKE3, data, seqno)
 	if err != nil {
 		panic(err)
@@ -352,6 +369,9 @@ func mkMsg(kind string, claim, other int, data []byte, seqno uint64) *signaling.
 	case "claims-other":
 		// genuinely signed by `other`, and says so: the sender is not who the stream is
 		m, _ = signaling.NewSessionMsg(gen.Key(other), hash.HashType_HashType_BLAKE3, data, seqno)
+	case "tampered-tail-large":
+		m.SignedMsg.Data = append([]byte{}, m.SignedMsg.Data...)
+		m.SignedMsg.Data[len(m.SignedMsg.Data)-1] ^= 1
 	case "tampered-body":
 		m.SignedMsg.Data = append([]byte{}, m.SignedMsg.Data...)
 		m.SignedMsg.Data[0] ^= 1
@@ -420,3 +440,6 @@ func quiesce(lens func() int) {
 		}
 	}
 }
+
+// honestKind reports whether a message kind is an authentic message of its claimed sender.
+func honestKind(kind string) bool { return kind == "honest" || kind == "honest-large" }
